@@ -164,6 +164,44 @@ Definition serve (dp : datapath) (meth : string) (b : body) : result :=
     end
   else Result [StatusMethodNotAllowed] [] None.
 
+(* ---------------------------------------------------------------- the handler over a history *)
+(* One ConfigHandler + upf serve many requests; what survives a request inside the agent is
+   upf.sliceInfo.  upf.addSliceInfo is
+       u.sliceInfo = sliceInfo; return u.AddSliceInfo(sliceInfo)
+   the previous value is overwritten and never read, and the datapath's answer (accepted, refused,
+   failed) is only logged.  The state is threaded explicitly so that the theorems can say so. *)
+Definition state := option slice_info.
+
+Definition upf_add_slice_info (st : state) (dp : datapath) (s : slice_info) : state * list write :=
+  (Some s, add_slice_info dp s).
+
+Definition serve_st (st : state) (dp : datapath) (meth : string) (b : body) : result * state :=
+  if accepts meth then
+    match b with
+    | Unreadable => (Result [StatusBadRequest] [] None, st)
+    | Malformed => (Result [StatusBadRequest] [] None, st)
+    | Decoded d =>
+        let s := slice_info_of d in
+        let '(st', ws) := upf_add_slice_info st dp s in
+        (Result [StatusCreated] ws (Some s), st')
+    end
+  else (Result [StatusMethodNotAllowed] [] None, st).
+
+Record request := Req { q_meth : string; q_body : body }.
+
+Fixpoint run (st : state) (dp : datapath) (reqs : list request) : list result * state :=
+  match reqs with
+  | [] => ([], st)
+  | q :: rest =>
+      let '(r, st') := serve_st st dp (q_meth q) (q_body q) in
+      let '(rs, st'') := run st' dp rest in
+      (r :: rs, st'')
+  end.
+
+(* what the slice meter holds after a history: the writes of the last request that sent any *)
+Definition meter_after (m : list write) (rs : list result) : list write :=
+  fold_left (fun m r => match r_writes r with [] => m | w => w end) rs m.
+
 (* ---------------------------------------------------------------- specification-side vocabulary *)
 (* the multiplier the property text assigns to a unit string; unstated (or unrecognised) = Mbps *)
 Definition unit_of (u : string) : N :=
